@@ -292,7 +292,7 @@ func runC12(c *mon.Ctx) {
 	ck := 0
 	for _, L := range []int64{0, 64 << 10} {
 		for ei, ep := range eps {
-			for _, form := range []string{"first-byte-lt", "space-then-lt", "first-byte-paren", "first-byte-zero-digit"} {
+			for _, form := range []string{"first-byte-lt", "space-then-lt", "first-byte-paren", "first-byte-zero-digit", "tab-then-lt", "tab-final"} {
 				ck++
 				cs := c.Begin("text-like-deflate", ck)
 				if cs == nil {
@@ -309,6 +309,12 @@ func runC12(c *mon.Ctx) {
 					z = sim.DeflateStartingWithLT([]byte(doc))
 				case "space-then-lt":
 					z = sim.DeflateStoredSniff([]byte(doc), ' ', 0x3C)
+				case "tab-then-lt":
+					// one final stored block whose length has 0x3C as low byte: the stream begins with TAB '<'
+					doc, signed, what = pad(ep.kind, 6000+int64((0x3C-6000%256+256)%256))
+					z = sim.DeflateStoredFinalSniff([]byte(doc), '\t')
+				case "tab-final":
+					z = sim.DeflateStoredFinalSniff([]byte(doc), '\t')
 				case "first-byte-paren":
 					z = sim.DeflateStoredSniff([]byte(doc), '(', 0x100)
 				default:
